@@ -106,8 +106,8 @@ def oracle(prog, res):
     elif res["sems_after"]:
         v.append(("semaphore_outlives_tree", f"ending={prog['ending']}: after the tree and its tracker ended, {len(res['sems_after'])} "
                   f"entries remain: {res['sems_after'][:5]}"))
-    if prog["ending"] == "release_all_then_exit" and "leaked semlock" in res.get("err", ""):
-        v.append(("leak_reported_for_released_objects", res["err"][-300:]))
+    if prog["ending"] == "release_all_then_exit" and ("leaked semlock" in res.get("err", "") or "resource_tracker: /loky" in res.get("err", "")):
+        v.append(("leak_reported_for_released_objects", res["err"][-400:]))
     if prog["ending"] in ("release_all_then_exit", "exit") and res["rc"] != 0:
         v.append(("driver_failed", f"rc={res['rc']} {res['err'][-400:]}"))
     return v
@@ -131,7 +131,7 @@ def real_shard(seed, n, tier="quick"):
         live = []
         nobj = 0
         for _ in range(draw(st.integers(1, 8))):
-            what = draw(st.sampled_from(["new", "new", "new", "del", "send", "submit"]))
+            what = draw(st.sampled_from(["new", "new", "new", "del", "send", "submit", "unlink_behind"]))
             if what == "new":
                 kind = draw(st.sampled_from(kinds))
                 key = f"o{nobj}"
@@ -148,6 +148,8 @@ def real_shard(seed, n, tier="quick"):
                     live.remove((key, kind))
                 elif what == "send" and kind != "executor":
                     ops.append(["send", key, draw(st.sampled_from([0, 0.05]))])
+                elif what == "unlink_behind" and kind != "executor":
+                    ops.append(["unlink_behind", key])
                 elif what == "submit" and kind == "executor":
                     ops.append(["submit", key, draw(st.integers(0, 9))])
         if ending == "broken_then_exit":
